@@ -405,6 +405,7 @@ fn summarize_trace(t: &crate::trace::Trace, max_events: usize) -> serde_json::Va
         .take(max_events)
         .map(|e| match e {
             Ev::Restart { t } => serde_json::json!({"kind": "collector_restart", "t_ns": t}),
+            Ev::Reconfigure { t, p, allowed } => serde_json::json!({"kind": "allowed_versions_changed", "t_ns": t, "parser": p, "allowed": allowed}),
             Ev::Deliver { t, p, buf, parts, cut, faults } => serde_json::json!({
                 "kind": "deliver", "t_ns": t, "parser": p, "bytes": buf.len(), "packets_in_buffer": parts.len(),
                 "cut_at": cut, "faults": faults,
